@@ -237,6 +237,12 @@ pub fn seeds() -> Vec<Item> {
     }
     for s in [
         "a: 1\n", "- 1\n- 2\n", "  - 1\n  - 2\n", "  a: 1\n  b: 2\n", "# only a comment\n", "\n\n", "---\n", "---\n---\n", "...\n", "--- 1\n--- 2\n", "*y", "&a [*a]", "? \n", "\n? ", "a: &x 1\nb: *x\n", "a: !!binary aGk=\n", "\u{feff}a: 1\n", "a: 1\n\u{feff}b: 2\n", "a: 1\n--- \u{feff}\nb: 2\n", "\u{700}: 1\n", "key: [unterminated\n", "a: b: c\n", "%YAML 1.2\n---\na\n", "%YAML 1.1\n---\nyes\n", "a:\n\t- 1\n", "? [1, 2]\n: x\n", "~: 1\n", "{a: 1, b: [2, 3]}\n", "[a, [b, [c]]]\n", "|\n  text\n", ">-\n  folded\n  text\n", "a: 1\n...\n---\nb: 2\n", "a: 1\n... # c\n--- # c\nb: 2\n", "- !!str 1\n- !!int '2'\n- !!float 3\n", "&a a: &b b\n*a : *b\n", "<<: {a: 1}\nb: 2\n", "'a\n\n  b'\n", "\"a\\\n  b\"\n", "a: 'it''s'\n", "- - - - a\n", "a:\n  b:\n    c:\n      d: 1\n", "1: 2\n", "true: false\n", "null: null\n", "[a]: b\n", "{a: b}: c\n", "- a\n- b\n...\ngarbage: [\n",
+        // directives that are USED by the document they precede, alone and in multi-document streams
+        "%TAG !e! tag:example.com,2000:app/\n---\na: !e!foo 1\n", "%TAG !! tag:example.com,2000:app/\n---\na: !!int 1\n", "%TAG ! tag:example.com,2000:\n---\na: !x 1\n", "a: 1\n...\n%TAG !e! tag:example.com,2000:app/\n---\nb: !e!foo 2\n---\nc: 3\n", "%YAML 1.1\n%TAG !e! tag:e.com,2000:\n--- !e!t\nk: v\n...\n%YAML 1.1\n---\nk: w\n",
+        // other line break conventions
+        "a: 1\r\nb:\r\n  - x\r\n  - y\r\n", "a: 1\rb:\r  - x\r  - y\r", "--- a\r--- b\r--- c\r", "k: |\r\n  one\r\n  two\r\n",
+        // tiny streams
+        "a", "7", "-", "~", "[", "!", "&", "|", ">", "%", "@", "`", "'", "#", ":", "?", ",",
     ] {
         add(s.as_bytes(), y);
     }
